@@ -16,7 +16,9 @@ type UndiscriminatedDisjunctionToAny struct {
 }
 
 func (pass *UndiscriminatedDisjunctionToAny) Process(schemas []*ast.Schema) ([]*ast.Schema, error) {
-	pass.schemas = schemas
+	// references are resolved in the schemas as they were handed over, not in the list
+	// the visitor is rewriting (see DisjunctionToType)
+	pass.schemas = ast.Schemas(schemas).DeepCopy()
 	visitor := &Visitor{
 		OnDisjunction: pass.processDisjunction,
 	}
